@@ -16,6 +16,9 @@ Python harness really builds (`(valid OP)`, FuraxModel/Driver.lean):
   `QURotationTransposeOperator`, `DiagonalInverseOperator`): the objects whose semantic invertibility `WrapOK` asks
   and that this file does NOT decide (the promise "the operand of a lazy inverse is invertible").
 
+The dense einsum leaves with one block array shared by their leaves are checked by `Einsum.denseCheck`
+(FuraxModel/DenseCheck.lean).
+
 Soundness and completeness: FuraxProofs/Sem/ValidDecide.lean.  Core Lean only (no Mathlib).
 -/
 import FuraxModel.Op
@@ -24,6 +27,7 @@ import FuraxModel.IndexRule
 import FuraxModel.Axes
 import FuraxModel.Diagonal
 import FuraxModel.Dual
+import FuraxModel.DenseCheck
 namespace Furax
 namespace Valid
 open Op
@@ -198,6 +202,15 @@ def diagonalLeafb (p : Params) (l : LeafS) : Bool :=
 def diagonalClauses (p : Params) : List Clause :=
   [("diagonal:product-does-not-keep-leaf-shape", p.inS.leaves.all (diagonalLeafb p))]
 
+/-! ### dense einsum blocks -/
+
+/-- `listLeafOK .dense p = (denseShared p → denseOK p)`: a dense leaf with one block array PER leaf is interpreted by
+the environment and not constrained; one with ONE block array shared by its leaves (`Einsum.denseSharedb`) is
+interpreted by the einsum kernel and must pass `Einsum.denseCheck` (FuraxModel/DenseCheck.lean); the tag names the first
+condition that fails (`Einsum.denseReason`) -/
+def denseClauses (p : Params) : List Clause :=
+  [("dense:" ++ (Einsum.denseReason p).getD "", !Einsum.denseSharedb p || Einsum.denseCheck p)]
+
 /-! ### all the leaf classes -/
 
 /-- the named clauses of `listLeafOK c p`, class by class -/
@@ -212,6 +225,7 @@ def leafClauses : LeafCls → Params → List Clause
   | .hwp, p => stokesClauses .hwp p
   | .polarizer, p => stokesClauses .polarizer p
   | .diagonal, p => diagonalClauses p
+  | .dense, p => denseClauses p
   | _, _ => []
 
 /-- Boolean mirror of `listLeafOK` -/
@@ -310,10 +324,11 @@ def isDiagonalLeaf : Op → Bool
   | _ => false
 
 mutual
-/-- `TFormOK`: no dense leaf and every `DiagonalInverseOperator` wraps a diagonal leaf, at the positions
-`transposeOp` visits -/
+/-- `TFormOK`: every dense leaf has ONE block array shared by its leaves (`Einsum.denseSharedb`: the case the
+denotation interprets by the einsum kernel) and every `DiagonalInverseOperator` wraps a diagonal leaf, at the
+positions `transposeOp` visits -/
 def tformb : Op → Bool
-  | .leaf _ c _ => c != .dense
+  | .leaf _ c p => c != .dense || Einsum.denseSharedb p
   | .wrap _ k o => k != .diagInv || isDiagonalLeaf o
   | .comp _ ops => tformListb ops
   | .cont _ _ _ ops => tformListb ops
@@ -342,7 +357,7 @@ def invalidReasonT (o : Op) : Option String :=
   match invalidReasonWith adjLeafReason o with
   | some r => some r
   | none =>
-    if !tformb o then some "adjoint:dense-leaf-or-diagInv-of-non-diagonal"
+    if !tformb o then some "adjoint:dense-leaf-with-per-leaf-blocks-or-diagInv-of-non-diagonal"
     else if !wftb o then some "adjoint:symmetric-leaf-not-square"
     else none
 
